@@ -2,7 +2,7 @@
 # For `vp run`: runs every thorough tier from a snapshot without touching /verif's target/evidence.
 #   vp run --timeout 6h -- tools/run_thorough_all.sh [IDs...]
 export CARGO_TARGET_DIR="$PWD/target" VERIF_ROOT="$PWD"
-ids="${*:-C20 C01 C02 C03 C04 C05 C06 C07 C08 C09 C10 C11 C12 C13 C14 C15 C16 C18 C19}"
+ids="${*:-C13 C03 C11 C06 C02 C17 C01 C12 C20 C04 C05 C07 C08 C09 C14 C15 C16 C18 C19 C10}"
 for id in $ids; do
   s=$(date +%s)
   ./check "$id" --tier thorough > "thorough-$id.log" 2>&1; rc=$?
